@@ -76,11 +76,13 @@ class _SynthFinder(importlib.abc.MetaPathFinder, importlib.abc.Loader):
     """Modules named vfdef_<n> come into existence only when imported (for Deferred[...])."""
 
     PREFIX = "vfdef_"
-    PKG = "vfdefp_"     # packages: <pkg>.base (Thing, Other), <pkg>.impl (Sub(Thing)), <pkg>.api (re-exports)
+    PKG = "vfdefp_"     # packages: <pkg>.base (Thing, Other), <pkg>.impl (Sub(Thing)), <pkg>.api (re-exports),
+    #                     <pkg>.extra (Lazy; imported by nobody), and a class Root defined in the package itself
     SUBS = {
         "base": "class Thing:\n    pass\nclass Other:\n    pass\n",
         "impl": "from .base import Thing\nclass Sub(Thing):\n    pass\n",
         "api": "from .base import Thing, Other\nfrom .impl import Sub\n",
+        "extra": "class Lazy:\n    pass\n",      # not imported by the package itself
     }
 
     def find_spec(self, name, path, target=None):
@@ -104,7 +106,7 @@ class _SynthFinder(importlib.abc.MetaPathFinder, importlib.abc.Loader):
             pkg, _, sub = name.partition(".")
             if not sub:
                 module.__path__ = []
-                exec("from . import base, impl, api\nfrom .api import Thing, Sub, Other\n", ns)
+                exec("from . import base, impl, api\nfrom .api import Thing, Sub, Other\nclass Root:\n    pass\n", ns)
             else:
                 exec(self.SUBS[sub], ns)
             return
